@@ -151,8 +151,10 @@ def rule_block_number(report, prog):
     report.check(set(consts_) == {'162 | self.pni', '178 | self.pni', '162 | ~self.pni & 1'}, 'C12-R2',
                  key(f.qname, 'R(ACK)=A2h|n, R(NAK)=B2h|n, retransmit request R(ACK) with the other number'), f.loc(),
                  'R-block constants changed: %s' % consts_)
-    masks = sorted(set(norm(e) for e in ast.walk(f.node) if isinstance(e, ast.Compare) and 'data[0] &' in norm(e.left)))
-    want = {'data[0] & 254 == 242', 'data[0] & 1 != self.pni', 'data[0] & 254 == 162', 'data[0] & 238 == 2', 'data[0] & 238 != 2'}
+    # (polarity does not matter here: `x == K` on the accepting branch and `x != K` as a refusing guard classify the same way; the
+    # branch that each test guards is decided by the CFG rules above)
+    masks = sorted(set(norm(e).replace(' != ', ' == ') for e in ast.walk(f.node) if isinstance(e, ast.Compare) and 'data[0] &' in norm(e.left)))
+    want = {'data[0] & 254 == 242', 'data[0] & 1 == self.pni', 'data[0] & 254 == 162', 'data[0] & 238 == 2'}
     report.check(set(masks) == want, 'C12-R2', key(f.qname, 'response classification masks (WTX F2h, ACK A2h, I-block 02h)'), f.loc(),
                  'response classification changed: %s' % masks)
     # only I-blocks carry response data: every statement that takes data[1:] into the response lies behind the I-block test of the
